@@ -84,7 +84,57 @@ def derived_from_generator(ctx: Ctx):
     return n_sub
 
 
+def generated_masks(ctx: Ctx):
+    """C08.f DPP / MDPP generators: the availability mask of a generated instance starts all-open and is only ever CLOSED
+    (scatter with the constant False) -- at the probe and at every keep-out cell -- and the probe reported under `probe` is the
+    very index (DPP) / is marked True at the very indices (MDPP) that were closed."""
+    from ..envs import generator_slot
+    for cname in ("DPPEnv", "MDPPEnv"):
+        env = EnvA(ctx.repo, T.ALL_ENVS[cname], cname)
+        g, gsl = generator_slot(ctx.repo, env.cls)
+        if gsl is None or not isinstance(gsl.fr.ret, vg.TD):
+            raise AnalysisError(f"{cname}: generator not analysable")
+        ctx.fn(gsl.fi)
+        am, pr = gsl.fr.ret.cells.get("action_mask"), gsl.fr.ret.cells.get("probe")
+        if am is None or pr is None:
+            raise AnalysisError(f"{cname}: generator does not emit action_mask / probe")
+
+        def parts(n):
+            """(index, value) of x.scatter(dim, index, value) in positional or keyword spelling"""
+            pos = [a for a in n.args[2:] if not (isinstance(a, vg.S) and a.op == "kw")]
+            kw = {a.args[0]: a.args[1] for a in n.args[2:] if isinstance(a, vg.S) and a.op == "kw"}
+            names = ["dim", "index", "value"]
+            got = dict(zip(names, pos))
+            for k_, v_ in kw.items():
+                got["value" if k_ in ("value", "src") else k_] = v_
+            return got.get("index"), got.get("value")
+
+        def scatters(root):
+            # the iterator of a `for ... in zip(mask, picks)` loop is data the loop reads, not part of the written tensor's history
+            return [n for n in vg.walk(root, stop=lambda z: z.op == "iter") if n.op == "meth" and n.args[1] in ("scatter", "scatter_") and all(x is not None for x in parts(n))]
+        sc = scatters(am)
+        vals = [parts(n)[1] for n in sc]
+        closes = all(vg.is_const(v) and v.args[0] is False for v in vals)
+        opens_all = any(nf._fn(n) == "torch.ones" for n in vg.walk(am)) and not any(nf._fn(n) == "torch.zeros" for n in vg.walk(am))
+        want = 2 if cname == "DPPEnv" else 3
+        ok = closes and opens_all and len({n.id for n in sc}) >= want
+        ctx.ob("C08.f", f"{g.name}:mask-only-closes", ok, gsl.where,
+               f"{len({n.id for n in sc})} scatter(s) on the all-True mask (need >= {want}: probe, keep-out" + (", probes" if want == 3 else "") + f"), every written value is False: {closes}",
+               construct=f"{g.name}._generate:mask-only-closes")
+        idx_closed = {nf.strip(parts(n)[0]).id for n in sc} | {parts(n)[0].id for n in sc}
+        if cname == "DPPEnv":
+            pnodes = {x.id for x in vg.walk(pr) if nf._fn(x) == "torch.randint"}
+            okp = bool(pnodes & idx_closed)
+            whyp = "the reported probe is the index that was closed in the mask"
+        else:
+            ps = scatters(pr)
+            okp = bool(ps) and all(vg.is_const(parts(n)[1]) and parts(n)[1].args[0] is True for n in ps) and all((parts(n)[0].id in idx_closed or nf.strip(parts(n)[0]).id in idx_closed) for n in ps)
+            whyp = "the probe map is set True exactly at indices that are closed in the mask"
+        ctx.ob("C08.f", f"{g.name}:probe-is-closed", okp, gsl.where, whyp + f": {okp}", construct=f"{g.name}._generate:probe-closed")
+
+
 def run(ctx: Ctx):
+    generated_masks(ctx)
     n_derived = derived_from_generator(ctx)
     ctx.extra["envs_replacing_an_inherited_generator"] = n_derived
     n = 0
